@@ -525,6 +525,17 @@ func (c *ctx) ruleCachesCleared(R string) {
 					written[fv.Name()] = true
 				}
 			}
+			// a whole-struct assignment (*s.cache = cache{...}) gives every field a value: those the literal names and
+			// the zero value for the others
+			if st, ok := in.(*ssa.Store); ok {
+				if nt := namedOf(st.Val.Type()); nt != nil && nt.Obj() == cacheT.Obj() {
+					if _, isPtr := st.Val.Type().(*types.Pointer); !isPtr {
+						for _, f := range allFields(cacheT) {
+							written[f] = true
+						}
+					}
+				}
+			}
 		})
 		c.coverCheck(R, "ResetCaches", cacheT, allFields(cacheT), written, map[string]string{"sharedCache": "height-keyed historical validator lists, never mutated by a borrower (C13.R1)"}, c.p.Pos(resetCaches.Pos()))
 	}
